@@ -61,6 +61,29 @@ func hostile2(a [64]byte, b [40]int, m map[string]interface{}, c chan int, f fun
 	return [64]byte{1}, [40]int{2}, wide{}
 }
 
+//go:noinline
+func textFn(s string, bs []byte, e error) (string, error) { return "orig:" + s, e }
+
+// textFor builds text of 0..600 bytes from units of 1..4 bytes (ASCII, Latin, CJK, emoji), optionally with invalid UTF-8 or control characters
+func textFor(code int64) string {
+	if code < 0 {
+		code = -code
+	}
+	units := []string{"a", "é", "世", "😀", "%v", "\n", "\x00", "\xff\xfe", " "}
+	u := units[code%4]
+	n := []int{0, 1, 31, 33, 43, 64, 65, 100, 120, 125, 126, 127, 128, 129, 150, 300}[(code/4)%16]
+	t := strings.Repeat(u, n)
+	switch (code / 64) % 5 {
+	case 1:
+		t += units[4+int(code/320)%5]
+	case 2:
+		t = units[4+int(code/320)%5] + t
+	case 3:
+		t = t + "x" + t
+	}
+	return t
+}
+
 func hostile2Args(code int64) []reflect.Value {
 	var a [64]byte
 	var b [40]int
@@ -346,6 +369,23 @@ func play(sc *scen) (tr []string) {
 			b.Struct(argv).Method(m.Name).Apply(m.MkRepl(rec))
 			call(fmt.Sprintf("%s.%s/closure#%d", t.Name, m.Name, i), func() []reflect.Value { return m.Call(0, valuesFor(ins(m.FuncType, 1), 5)) })
 		}
+	case "text":
+		// long, multi-byte, invalid and control-character text as arguments and results (whatever the log does to render or
+		// shorten it stays in the log)
+		for i := 0; i < 3; i++ {
+			in := textFor(code(sc, i) + int64(i))
+			out := textFor(code(sc, i)*3 + 1)
+			b.Func(textFn).Apply(func(s string, bs []byte, e error) (string, error) {
+				return fmt.Sprintf("%d/%d/%s", len(s), len(bs), out), errors.New(out)
+			})
+			call(fmt.Sprintf("text/cb len=%d", len(in)), func() []reflect.Value {
+				return reflect.ValueOf(textFn).Call([]reflect.Value{reflect.ValueOf(in), reflect.ValueOf([]byte(in)), reflect.ValueOf(errors.New(in)).Convert(reflect.TypeOf((*error)(nil)).Elem())})
+			})
+			b.Func(textFn).Return(out, nil)
+			call("text/ret", func() []reflect.Value {
+				return reflect.ValueOf(textFn).Call([]reflect.Value{reflect.ValueOf(in), reflect.ValueOf([]byte(nil)), reflect.Zero(reflect.TypeOf((*error)(nil)).Elem())})
+			})
+		}
 	case "hostile2":
 		var saw string
 		b.Func(hostile2).Apply(func(a [64]byte, bb [40]int, m map[string]interface{}, c chan int, f func(), u unsafe.Pointer, z complex128, w wide, e [0]int) ([64]byte, [40]int, wide) {
@@ -490,7 +530,7 @@ func TestVerifC19(t *testing.T) {
 	quiet()
 	p := &vkit.Prop{ID: "C19", Unit: "scenarios", Journal: true, New: func() interface{} { return &scen{} },
 		Gen: func(rt *rapid.T) interface{} {
-			sc := &scen{Kind: rapid.SampledFrom([]string{"fn", "fn", "variadic", "method", "iface", "panic", "hostile", "hostile", "hostile2", "hostile2", "reapply", "reapply"}).Draw(rt, "kind"),
+			sc := &scen{Kind: rapid.SampledFrom([]string{"fn", "fn", "variadic", "method", "iface", "panic", "hostile", "hostile", "hostile2", "hostile2", "reapply", "reapply", "text", "text"}).Draw(rt, "kind"),
 				K: rapid.IntRange(0, 119).Draw(rt, "k")}
 			n := rapid.IntRange(1, 6).Draw(rt, "ncodes")
 			for i := 0; i < n; i++ {
